@@ -13,8 +13,10 @@ import (
 	"fmt"
 	"io"
 	"net/http"
+	"net/http/httptest"
 	"reflect"
 	"strings"
+	"sync"
 
 	"github.com/brocaar/lorawan/backend"
 	"pgregory.net/rapid"
@@ -57,6 +59,47 @@ func (c *chunkReader) Read(p []byte) (int, error) {
 	return k, nil
 }
 
+// the loopback peer (started once per process; unused while the client goes through http.DefaultClient)
+var (
+	peerOnce   sync.Once
+	peerAddr   = "http://js.invalid/api"
+	peerMu     sync.Mutex
+	peerBody   []byte
+	peerChunk  int
+	peerPosted []byte
+	peerErr    error
+)
+
+func peerURL() string {
+	peerOnce.Do(func() {
+		defer func() { _ = recover() }() // no loopback interface: the in-process transport alone is used
+		srv := httptest.NewServer(http.HandlerFunc(func(w http.ResponseWriter, r *http.Request) {
+			b, err := io.ReadAll(r.Body)
+			peerMu.Lock()
+			peerPosted, peerErr = b, err
+			body, chunk := append([]byte{}, peerBody...), peerChunk
+			peerMu.Unlock()
+			if chunk < 512 {
+				chunk = 512
+			}
+			w.Header().Set("Content-Type", "application/json")
+			for len(body) > 0 {
+				k := chunk
+				if k > len(body) {
+					k = len(body)
+				}
+				_, _ = w.Write(body[:k])
+				body = body[k:]
+				if f, ok := w.(http.Flusher); ok {
+					f.Flush()
+				}
+			}
+		}))
+		peerAddr = srv.URL + "/api"
+	})
+	return peerAddr
+}
+
 type rtFunc func(*http.Request) (*http.Response, error)
 
 func (f rtFunc) RoundTrip(r *http.Request) (*http.Response, error) { return f(r) }
@@ -79,7 +122,7 @@ func checkClient(c clientCase) evid.Outcome {
 	if c.Chunk < 1 || c.Desc < 0 || c.Desc > 1<<20 || c.Blob < 0 || c.Blob > 1<<20 {
 		return evid.Outcome{Skip: true}
 	}
-	cl, err := backend.NewClient(backend.ClientConfig{SenderID: "010203", ReceiverID: "0807060504030201", Server: "http://js.invalid/api"})
+	cl, err := backend.NewClient(backend.ClientConfig{SenderID: "010203", ReceiverID: "0807060504030201", Server: peerURL()})
 	if err != nil {
 		return evid.Fail("NewClient: %v", err)
 	}
@@ -126,6 +169,11 @@ func checkClient(c clientCase) evid.Outcome {
 
 	var posted []byte
 	var postErr error
+	// Two transports carry the same exchange: an in-process RoundTripper on http.DefaultClient (exact read sizes), and -
+	// for a client that brings its own http.Client - a loopback server that serves the same body in flushed pieces.
+	peerMu.Lock()
+	peerBody, peerChunk, peerPosted, peerErr = body, c.Chunk, nil, nil
+	peerMu.Unlock()
 	old := http.DefaultClient.Transport
 	http.DefaultClient.Transport = rtFunc(func(r *http.Request) (*http.Response, error) {
 		posted, postErr = io.ReadAll(r.Body)
@@ -139,6 +187,11 @@ func checkClient(c clientCase) evid.Outcome {
 		return nil
 	}()
 	http.DefaultClient.Transport = old
+	peerMu.Lock()
+	if posted == nil && peerPosted != nil {
+		posted, postErr = peerPosted, peerErr // the exchange went over the loopback server
+	}
+	peerMu.Unlock()
 	if p != nil {
 		return evid.Fail("client.%s panics: %v", c.Method, p)
 	}
